@@ -470,6 +470,15 @@ func (env *Env) trCall(e *Expr, expect string) TV {
 			trFail("arr() of %s", x.S)
 		}
 		return TV{"(sl.arr " + x.T + ")", "(Array Int " + el + ")"}
+	case "ptrnil":
+		if len(e.Args) != 1 || e.Args[0].Kind != "id" {
+			trFail("ptrnil needs a pointer parameter or result name")
+		}
+		v, ok := env.vars[e.Args[0].Tok+"$isnil"]
+		if !ok {
+			trFail("%s is not a pointer parameter or result", e.Args[0].Tok)
+		}
+		return v
 	case "is_string", "is_uint64", "is_int64", "is_bool":
 		x := env.tr(e.Args[0], "Iface")
 		return TV{fmt.Sprintf("(= (iface.tag %s) %d)", x.T, u.BoxTag(basicByName(name[3:]))), "Bool"}
